@@ -248,6 +248,7 @@ type endpoint struct {
 
 type pair struct {
 	srvIn    *tk.Wire // tlcp: the wire the server reads from
+	cliIn    *tk.Wire // tlcp: the wire the client reads from
 	cli, srv *endpoint
 	maxOne   int // largest payload that is certainly one record
 }
@@ -268,7 +269,7 @@ func newPair(o opts) (*pair, error) {
 	ccfg := tk.EPConfig{Suites: []uint16{o.suite}, Ident: "cli", ServerName: "server.test", PMTU: 1400, RetransMs: o.retrans, MaxRetransMs: 400}
 	scfg := tk.EPConfig{Ident: "srv", PMTU: 1400, RetransMs: o.retrans, MaxRetransMs: 400}
 	if o.stack == "tlcp" {
-		craw, sraw, c2s, _ := tk.StreamPair()
+		craw, sraw, c2s, s2c := tk.StreamPair()
 		var cnc, snc net.Conn = &yConn{craw, y}, &yConn{sraw, y}
 		if o.gateCli > 0 {
 			cnc = &gateConn{Conn: craw, after: o.gateCli, sleep: o.gateFor}
@@ -286,7 +287,7 @@ func newPair(o opts) (*pair, error) {
 				active:   c.VerifActiveCall,
 				rawClose: func() { raw.Close() }}
 		}
-		return &pair{cli: mk(c, craw), srv: mk(s, sraw), maxOne: 600, srvIn: c2s}, nil
+		return &pair{cli: mk(c, craw), srv: mk(s, sraw), maxOne: 600, srvIn: c2s, cliIn: s2c}, nil
 	}
 	cpc, err := net.ListenPacket("udp", "127.0.0.1:0")
 	if err != nil {
@@ -1081,6 +1082,44 @@ func scDeadlineWakes(o opts, r *rand.Rand, out *RunOut) error {
 	return nil
 }
 
+// handshakeTimeout: the peer is silent; two goroutines call Handshake while a third lets the read deadline expire and
+// clears it again: every caller, and a later call, gets the same result (stream stack)
+func scHandshakeTimeout(o opts, r *rand.Rand, out *RunOut) error {
+	if o.stack != "tlcp" {
+		out.Skip = true
+		return nil
+	}
+	p, err := newPair(o)
+	if err != nil {
+		return err
+	}
+	p.cliIn.Deadlines = true
+	g := newGroup()
+	var hc, hs results
+	ret := make(chan struct{}, 2)
+	for i := 0; i < 2; i++ {
+		g.goFn(func() { hc.add(class(p.cli.Handshake())); ret <- struct{}{} })
+	}
+	time.Sleep(time.Duration(2+r.IntN(5)) * time.Millisecond)
+	p.cli.SetReadDeadline(time.Now())
+	time.Sleep(time.Duration(500+r.IntN(3000)) * time.Microsecond)
+	p.cli.SetReadDeadline(time.Time{})
+	for i := 0; i < 2; i++ {
+		select {
+		case <-ret:
+		case <-time.After(3 * time.Second):
+			out.Stalled = true
+			out.Note = "a Handshake caller was still inside after the deadline had expired for the connection"
+		}
+	}
+	if !out.Stalled {
+		hc.add(class(p.cli.Handshake()))
+	}
+	out.Tail, out.Sub = true, true
+	finish(p, g, out, &hc, &hs, nil)
+	return nil
+}
+
 // ---- pa: first Read and first Write of a ProtocolSwitchServerConn at the same time (F17)
 
 type chanListener struct{ ch chan net.Conn }
@@ -1240,6 +1279,7 @@ var scenarios = map[string]scenarioFn{
 	"close-blocked":   scCloseBlockedWrite,
 	"deadline-wakes":  scDeadlineWakes,
 	"short-reads":     scShortReads,
+	"hs-timeout":      scHandshakeTimeout,
 	"accessors":       scAccessors,
 	"deadlines":       scDeadlines,
 	"pa":              scPa,
